@@ -251,6 +251,66 @@ func runPoints(e *encoder, pts []uint32) {
 	}
 }
 
+// denseSweep walks a uniform grid of per16 points per 16-bit table step over (0,1] (offset by a seeded fraction of
+// the spacing) and 4096 evenly spaced mantissas in every binade below 1, in increasing order: a decrease anywhere
+// between neighbouring grid points is a violation, and every 61st point also gets the interval oracle.  Table-step
+// boundaries alone cannot see a seam between two code paths that lies inside a step.
+func denseSweep(e *encoder, seed uint64, per16 int) {
+	n := 65535 * per16
+	off := float64(seed*0x9E3779B97F4A7C15>>11) / (1 << 53)
+	var prevB, prevV uint32
+	have, done := false, false
+	var cnt int64
+	visit := func(x float32) {
+		if done || !(x > 0) || x > 1 {
+			return
+		}
+		b := math.Float32bits(x)
+		if have && b <= prevB {
+			return
+		}
+		v := e.fn(x)
+		cnt++
+		if have && v < prevV {
+			x1 := math.Float32frombits(prevB)
+			e.record("monotone", fmt.Sprintf("%s decreases: f(%.9g)=%d > f(%.9g)=%d", e.name, x1, prevV, x, v),
+				Case{Fn: e.name, Bits: prevB, X: float64(x1), Bits2: b, X2: float64(x)})
+			done = true
+			return
+		}
+		if cnt%61 == 0 {
+			if kind, what := e.point(b); kind != "" {
+				e.record(kind, what, Case{Fn: e.name, Bits: b, X: float64(x)})
+				done = true
+				return
+			}
+		}
+		prevB, prevV, have = b, v, true
+	}
+	p, msg := ev.Guard(func() {
+		// binades below the grid's first step
+		for exp := uint32(1); exp < 0x6F; exp++ {
+			for k := uint32(0); k < 4096; k++ {
+				visit(math.Float32frombits(exp<<23 | k<<11 | uint32(off*2048)))
+			}
+		}
+		first := math.Float32frombits(0x6F << 23)
+		for i := 0; i <= n; i++ {
+			x := float32((float64(i) + off) / float64(n))
+			if x < first {
+				continue
+			}
+			visit(x)
+		}
+	})
+	if p {
+		e.record("panic", msg, Case{Fn: e.name})
+	}
+	ev.Eval(cnt)
+	ev.NTAdd(cnt)
+	ev.Class(e.name+"/dense-grid", cnt)
+}
+
 // sweepAll walks every float32 bit pattern for one encoder (thorough tier).
 func sweepAll(e *encoder) {
 	const chunks = 256
@@ -413,7 +473,7 @@ func TestC02(t *testing.T) {
 		}
 		return
 	}
-	ev.Rule("inputs are float32 bit patterns. quick: every table-bucket boundary (i±½)/N and i/N for N=255,511,65535 ± {0,1,2} ulp, 64 seeded mantissas in every exponent below 2, special values (±0, subnormals, curve thresholds, 1±ulp, huge, ±Inf, NaN payloads) and negatives; thorough: additionally every one of the 2^32 bit patterns for the nine direct encoders/quantisers, walked in numeric order with the interval oracle evaluated at both ends of every constant run. non-trivial = distinct (encoder, bit pattern) with 0 < x < 1")
+	ev.Rule("inputs are float32 bit patterns. quick: every table-bucket boundary (i±½)/N and i/N for N=255,511,65535 ± {0,1,2} ulp, 64 seeded mantissas in every exponent below 2, special values (±0, subnormals, curve thresholds, 1±ulp, huge, ±Inf, NaN payloads) and negatives, plus an ordered dense grid (48 points per 16-bit table step, seeded offset; 256 in thorough) checked for monotonicity between neighbours; thorough: additionally every one of the 2^32 bit patterns for the nine direct encoders/quantisers, walked in numeric order with the interval oracle evaluated at both ends of every constant run. non-trivial = distinct (encoder, bit pattern) with 0 < x < 1")
 	ev.Set("slack_codes_rel", "max*2^-22")
 	ev.Assume("published OETFs transcribed in internal/ref; NaN inputs are only required not to panic")
 	for _, procs := range []string{"", "3", "5", "6", "7", "12"} {
@@ -426,6 +486,7 @@ func TestC02(t *testing.T) {
 	for i := range es {
 		runPoints(&es[i], pts)
 		ev.Class(es[i].name+"/points", int64(len(pts)))
+		denseSweep(&es[i], ev.Seed(), ev.Pick(48, 256))
 	}
 	// colour-type paths agree with the per-component encoders, channel by channel
 	agree(pts)
